@@ -114,6 +114,7 @@ pub closed spec fn spec_inner(&self) -> T { self.inner }
 ''', fns={
     "into_inner": Fn(ret="r", spec="ensures r == self.spec_inner(),"),
     "get_ref": Fn(ret="r", spec="ensures *r == self.spec_inner(),"),
+    "get_mut": Fn(ret="r", spec="ensures *r == (*old(self)).spec_inner(), (*final(self)).spec_inner() == *final(r), (*final(self)).spec_limit() == (*old(self)).spec_limit(),"),
     "limit": Fn(ret="r", spec="ensures r == self.spec_limit(),"),
     "set_limit": Fn(spec="ensures (*final(self)).spec_limit() == lim, (*final(self)).spec_inner() == (*old(self)).spec_inner(),"),
 })
@@ -139,6 +140,8 @@ pub closed spec fn spec_b(&self) -> U { self.b }
     "new": Fn(ret="r", spec="ensures r.spec_a() == a, r.spec_b() == b,"),
     "first_ref": Fn(ret="r", spec="ensures *r == self.spec_a(),"),
     "last_ref": Fn(ret="r", spec="ensures *r == self.spec_b(),"),
+    "first_mut": Fn(ret="r", spec="ensures *r == (*old(self)).spec_a(), (*final(self)).spec_a() == *final(r), (*final(self)).spec_b() == (*old(self)).spec_b(),"),
+    "last_mut": Fn(ret="r", spec="ensures *r == (*old(self)).spec_b(), (*final(self)).spec_b() == *final(r), (*final(self)).spec_a() == (*old(self)).spec_a(),"),
     "into_inner": Fn(ret="r", spec="ensures r.0 == self.spec_a(), r.1 == self.spec_b(),"),
 })
 U.block("src/buf/chain.rs", "impl<T, U> BufMut for Chain<T, U> where T: BufMut, U: BufMut,", spec_items=r'''
@@ -177,6 +180,7 @@ U.struct("src/buf/writer.rs", "struct Writer<B>")
 U.free_fn("src/buf/writer.rs", "new", Fn(ret="r", spec="ensures r.spec_buf() == buf,"), wrap_mod="writer")
 U.block("src/buf/writer.rs", "impl<B: BufMut> Writer<B>", fns={
     "get_ref": Fn(ret="r", spec="ensures *r == self.spec_buf(),"),
+    "get_mut": Fn(ret="r", spec="ensures *r == (*old(self)).spec_buf(), (*final(self)).spec_buf() == *final(r),"),
     "into_inner": Fn(ret="r", spec="ensures r == self.spec_buf(),"),
 })
 U.block("src/buf/writer.rs", "impl<B: BufMut + Sized> io::Write for Writer<B>", emit_header="impl<B: BufMut + Sized> Writer<B>", fns={
